@@ -20,7 +20,7 @@ def error_root(repo):
     return repo.cls("Error")
 
 
-def classify_raise(repo, func, node):
+def classify_raise(repo, func, node, _depth=0):
     """('library', cls) | ('reraise', None) | ('foreign', text) |
     ('rewrap', text) | ('unresolved', text)"""
     if node.exc is None:
@@ -30,6 +30,35 @@ def classify_raise(repo, func, node):
         f = e.func
         if isinstance(f, ast.Attribute) and f.attr == "__class__":
             return ("rewrap", unparse(e.func))
+        # raise self.__make_error(...): a helper all of whose returns build a
+        # library error
+        if _depth < 3:
+            helper = None
+            if isinstance(f, ast.Attribute) and isinstance(f.value, ast.Name) \
+                    and func.owner_cls is not None and \
+                    f.value.id in (func.self_name, "cls", "self",
+                                   func.owner_cls.name):
+                helper = func.owner_cls.find_method(f.attr)
+            elif isinstance(f, ast.Name):
+                ent0 = repo.resolve_expr(func.module, f)
+                if hasattr(ent0, "node") and hasattr(ent0, "params"):
+                    helper = ent0
+            if helper is not None and hasattr(helper, "node"):
+                rets = [n for n in walk_no_nested(helper.node)
+                        if isinstance(n, ast.Return)]
+                kinds = set()
+                cls_found = None
+                for r in rets:
+                    if r.value is None:
+                        kinds.add("none")
+                        continue
+                    k = classify_raise(repo, helper, ast.Raise(
+                        exc=r.value, cause=None), _depth + 1)
+                    kinds.add(k[0])
+                    if k[0] == "library":
+                        cls_found = k[1]
+                if rets and kinds == {"library"}:
+                    return ("library", cls_found)
         target = f
     else:
         target = e
